@@ -150,11 +150,16 @@ def _obs(n, obj, leaves):
 
         def _bs(res):
             return [[None if s_[0] is None else sorted([str(a_), int(b_)] for a_, b_ in s_[0].items()), int(s_[1]) if s_[1] is not None else None, int(s_[2])] for s_ in res]
-        try:
-            o["select_builtin"] = _bs(obj.select({obj.leafs()[0].id: 1}))
-            o["select_builtin2"] = _bs(obj.select({obj.leafs()[-1].id: -1}, {}))
-        except Exception as e_:    # noqa
-            o["select_builtin"] = "raises %s" % type(e_).__name__
+        import copy as _copy
+        probe = _copy.deepcopy(obj)
+        if C.terminates(("r09", repr(sorted(repr(x) for x in obj.flatten()))), lambda: (list(probe.select({probe.leafs()[0].id: 1})), list(probe.select({probe.leafs()[-1].id: -1}, {})))):
+            try:
+                o["select_builtin"] = _bs(obj.select({obj.leafs()[0].id: 1}))
+                o["select_builtin2"] = _bs(obj.select({obj.leafs()[-1].id: -1}, {}))
+            except Exception as e_:    # noqa
+                o["select_builtin"] = "raises %s" % type(e_).__name__
+        else:
+            o["select_builtin"] = "built-in solver did not return within the probe time"
         P = obj.ge_polyhedron
         o["cfgpoly_after_selects"] = [numpy.asarray(P).astype(int).tolist(), [str(v.id) for v in P.variables], [int(v) for v in P.default_prio_vector]]
     return o
